@@ -183,6 +183,20 @@ func (fg *FuncGen) obligeAt(kind, text, cond, goal string, props []string, claus
 	if goal != "true" && !nosafety {
 		fg.obls = append(fg.obls, o)
 	}
+	if sc := fg.g.selfContained; len(sc) > 0 && !strings.HasPrefix(kind, "safe:") && kind != "typeinv" && kind != "pre@call" && kind != "objinv@call" {
+		// experimental (-selfcontained): a clause this run does not check is not assumed for what follows
+		carried := false
+		for _, w := range sc {
+			for _, q := range props {
+				if q == w {
+					carried = true
+				}
+			}
+		}
+		if !carried {
+			return o
+		}
+	}
 	fg.assume(implies(cond, goal))
 	return o
 }
